@@ -322,6 +322,7 @@ def check_read_ahead(case, res, out):
     pull_stage = desc['stages'][pi - 1]['id']
     pool = pargen.is_pool(st)
     start_stage = st['id'] if st['op'] == 'parmap' else pull_stage
+    caught = W.catch_spec_types(st.get('catch')) if st.get('catch') else ()
     for ep, ev in enumerate(parrun.split_epochs(res['log'])):
         pulled = started = delivered = 0
         mp = ms = 0
@@ -339,6 +340,12 @@ def check_read_ahead(case, res, out):
                         ms, where_s = started - delivered, e[0]
             elif k == 'deliver':
                 delivered += 1
+            elif k == 'raise' and caught and issubclass(W.EXC_KINDS[e[5]], caught):
+                # an example the stage drops: finished, and never delivered.  It is
+                # counted as consumed from the moment it failed (lenient: it may
+                # still occupy a buffer slot until the consumer gets there)
+                delivered += 1
+                out['probes']['dropped_example_in_read_ahead_accounting'] = 1
         out['stats']['max_pull_ahead_b%+d' % (mp - b)] = \
             out['stats'].get('max_pull_ahead_b%+d' % (mp - b), 0) + 1
         if mp == b + 2:
